@@ -12,6 +12,12 @@
     remove id=                          → `ok len=N ctxs=..`
     mark                                → `ok released=r<n>=<out>|..`  or `PANIC` (second close)
     get r= id= / list r= sel / ctx r= id=   a reader goroutine: its result, or `blocked`
+      … rop=put rid= rver= rphase= rl= rs= at=<k> | rop=remove rid= at=<k>
+                                        the same reader with a racing CachePut / CacheRemove started from inside its
+                                        cache call (at the k-th Metadata()/DeepCopy() call of the cache on a cached
+                                        object) → `<op> out=<reader> len=N ctxs=..` once everything has settled.
+                                        Every handler method being one critical section (Cosi.Model.CacheConc,
+                                        regenerated), the answer is that of [reader; racing op] whatever k is.
     cancel r=                           → `canceled` (blocked reader) / `ok ctxs=..` (ctx reader) / `noop`
     len → `len N`;  handled typ= → `handled <b> boot=<b>`
 
@@ -27,6 +33,7 @@
   outside the property's domain (bootstrap contents not in ID order, a second mark) it prints `*`.
 -/
 import Cosi.Spec.Cache
+import Cosi.Model.CacheConc
 import Cosi.Driver.Selector
 
 namespace Cosi.Driver.Cache
@@ -132,6 +139,37 @@ def star (s : String) : String :=
       | k :: _ => k ++ "=*"
       | [] => "*")
 
+/-- the racing operation of a reader line (`rop=`, keys prefixed with `r`) -/
+def parseRace (a : List (String × String)) : Cosi.Cache.Op :=
+  let x := parseRes "T1" ([("id", arg a "rid"), ("ver", arg a "rver"), ("phase", arg a "rphase"), ("l", arg a "rl")] ++
+    (if hasArg a "rs" then [("s", arg a "rs")] else []))
+  if arg a "rop" == "remove" then .remove x else .put x
+
+/-- a whole call of the watch goroutine, through the concurrent model of the current source (model mode) and the
+    specification's view (spec mode) -/
+def St.call (st : St) (op : Cosi.Cache.Op) : St :=
+  { st with h := (CacheConc.step { h := st.h } (.call op)).h, v := st.v.step op }
+
+/-- a reader with a racing put / remove: the schedule [reader's sections; racing call] of Cosi.Model.CacheConc -/
+def St.raced (st : St) (op : String) (r : Nat) (p : PRead) (rop : Cosi.Cache.Op) : St × String :=
+  if st.enabled p.waits then
+    let (st1, o1) := match p with
+      | .ctx id =>
+        ({ st with h := (CacheConc.run { h := st.h } [.ctxBegin r id, .ctxEnd r]).h, v := st.v.step (.ctx r id),
+                   ctxReaders := st.ctxReaders ++ [r] }, "")
+      | _ => st.read r p "~"
+    let st2 := st1.call rop
+    let o := match p with
+      | .ctx _ =>
+        "ctx~" ++ (match (if st2.spec then st2.v.ctxs else st2.h.ctxs).find? (fun (c : TCtx) => c.cid = r) with
+          | some c => boolStr c.cancelled
+          | none => "?")
+      | _ => o1
+    (st2, s!"{op} out={o} len={st2.len} ctxs={st2.ctxs}")
+  else
+    let st2 := ({ st with pending := st.pending ++ [(r, p)] }).call rop
+    (st2, s!"{op} out=blocked len={st2.len} ctxs={st2.ctxs}")
+
 def stepCache (st : St) (op : String) (a : List (String × String)) : St × String :=
   let dom (st : St) (s : String) : String := if st.spec && !st.v.inDomain then star s else s
   match op with
@@ -151,14 +189,9 @@ def stepCache (st : St) (op : String) (a : List (String × String)) : St × Stri
       let ps := sortBy (fun x y : Nat × PRead => decide (x.1 < y.1)) st'.pending
       let (st'', outs) := releaseAll { st' with pending := [] } ps
       (st'', dom st'' ("mark out=ok released=" ++ (if outs.isEmpty then "-" else "|".intercalate outs)))
-  | "get" =>
-    let (st', o) := st.reader op (argNat a "r") (.get (arg a "id"))
-    (st', dom st' o)
-  | "list" =>
-    let (st', o) := st.reader op (argNat a "r") (.list (parseSel a))
-    (st', dom st' o)
-  | "ctx" =>
-    let (st', o) := st.reader op (argNat a "r") (.ctx (arg a "id"))
+  | "get" | "list" | "ctx" =>
+    let p : PRead := if op == "get" then .get (arg a "id") else if op == "list" then .list (parseSel a) else .ctx (arg a "id")
+    let (st', o) := if hasArg a "rop" then st.raced op (argNat a "r") p (parseRace a) else st.reader op (argNat a "r") p
     (st', dom st' o)
   | "cancel" =>
     let r := argNat a "r"
